@@ -39,7 +39,8 @@ def main():
             tests = None
             if with_tests:
                 t = subprocess.run(["/venv/bin/python", "-m", "pytest", "-q", "-x", "-p", "no:cacheprovider",
-                                    os.path.join(tmp, "jsonschema")], cwd=tmp, env=dict(os.environ, PYTHONPATH=tmp),
+                                    "-n", "8", os.path.join(tmp, "jsonschema")], cwd=tmp,
+                                   env=dict(os.environ, PYTHONPATH=tmp, JSON_SCHEMA_TEST_SUITE="/repo/json"),
                                    stdout=subprocess.PIPE, stderr=subprocess.STDOUT)
                 tests = "pass" if t.returncode == 0 else "FAIL"
             for prop in m["prop"].split(","):
